@@ -1,3 +1,3 @@
 SPECIFICATION Spec
-INVARIANTS KeyOK NetworkOK OkFlagOK RoundTripOK LinearOK ParentOK KidsOK KidsEncodableOK MustOK DecodeOK
+INVARIANTS KeyOK NetworkOK OkFlagOK RoundTripOK LinearOK ParentOK KidsOK KidsEncodableOK MustOK DeepOK DecodeOK
 CHECK_DEADLOCK FALSE
